@@ -14,6 +14,7 @@ import QV.Drive.C10
 import QV.Drive.C07
 import QV.Drive.C12
 import QV.Drive.C08
+import QV.Drive.C01
 /-! `qvdriver`: one JSON request per input line, one JSON reply per output line. -/
 open Lean
 
@@ -34,7 +35,8 @@ def dispatch (j : Json) : Except String Json := do
     QV.Drive.C10.handle,
     QV.Drive.C07.handle,
     QV.Drive.C12.handle,
-    QV.Drive.C08.handle
+    QV.Drive.C08.handle,
+    QV.Drive.C01.handle
   ]
   for h in handlers do
     if let some r := h op j then return ← r
